@@ -556,7 +556,7 @@ class Wrapc(util.WrapperMixin):
             #        self.header_forward[cname] = True
             self.compute_idtor(node)
 
-        self.wrap_enums(node)
+            self.wrap_enums(node)
 
         self._push_splicer("method")
         for method in node.functions:
